@@ -227,6 +227,25 @@ def n_else_after_return(src: str, path: str) -> str:
     return ast.unparse(ast.fix_missing_locations(tree)) + "\n"
 
 
+def n_logging(src: str, path: str) -> str:
+    """a log.debug(...) call at the start of every loop body and every branch (modules that have a module logger `log`)"""
+    tree = ast.parse(src)
+    if not any(isinstance(n, ast.Assign) and any(isinstance(t, ast.Name) and t.id == "log" for t in n.targets) for n in tree.body):
+        return src
+    k = [0]
+
+    def stmt() -> ast.stmt:
+        k[0] += 1
+        return ast.Expr(ast.Call(func=ast.Attribute(value=ast.Name("log", ast.Load()), attr="debug", ctx=ast.Load()), args=[ast.Constant(f"trace {k[0]}")], keywords=[]))
+
+    for node in ast.walk(tree):
+        if isinstance(node, (ast.For, ast.While, ast.If)):
+            node.body.insert(0, stmt())
+            if isinstance(node, ast.If) and node.orelse and not (len(node.orelse) == 1 and isinstance(node.orelse[0], ast.If)):
+                node.orelse.insert(0, stmt())
+    return ast.unparse(ast.fix_missing_locations(tree)) + "\n"
+
+
 def n_combined(src: str, path: str) -> str:
     """all of the above on top of each other"""
     for fn in (n_rename, n_membership, n_else_after_return, n_invert_if, n_extract):
@@ -234,7 +253,7 @@ def n_combined(src: str, path: str) -> str:
     return src
 
 
-NEUTRAL: dict[str, Callable[[str, str], str]] = {"ast-roundtrip": n_unparse, "rename-locals": n_rename, "extract-conditions": n_extract, "membership-and-eq-forms": n_membership, "invert-if-else": n_invert_if, "else-after-return": n_else_after_return, "combined": n_combined}
+NEUTRAL: dict[str, Callable[[str, str], str]] = {"ast-roundtrip": n_unparse, "rename-locals": n_rename, "extract-conditions": n_extract, "membership-and-eq-forms": n_membership, "invert-if-else": n_invert_if, "else-after-return": n_else_after_return, "combined": n_combined, "logging-calls": n_logging}
 
 
 # ------------------------------------------------------------------------------------------------ running
